@@ -62,6 +62,12 @@ def check_corpus(case):
     if flags["include_ref"] and case["ref_name"] in names:
         flags["include_ref"] = False
     np.random.seed(case["seed"])
+    if case.get("reuse") is not None:
+        # history: the SAME tool object first produces another corpus at another magnitude, then its public
+        # `magnitude` attribute is reassigned (as the repository's own benchmark test does)
+        cst.magnitude = case["reuse"]
+        lib_call("corpus_shuffle[earlier use]", cst.corpus_shuffle, 2, shift=True, false_pos=True, false_neg=True, split=True, cat_shuffle=True)
+        cst.magnitude = m
     corpus = lib_call("corpus_shuffle", cst.corpus_shuffle, ann if isinstance(ann, int) else list(ann), **flags)
     allowed = {u[2] for u in ref_units} | set(extras or [])
     expected = names + ([case["ref_name"]] if flags["include_ref"] else [])
@@ -75,6 +81,8 @@ def check_corpus(case):
                 raise Violation("corpus:magnitude-0-not-a-copy", f"flags {flags}: {a!r} {got[a]} vs reference {ref_units}")
     nflags = sum(1 for f in FLAGS[:5] if flags[f])
     classes = [f"flags={case['flags']:02d}", "m=0" if m == 0 else ("m=1" if m == 1 else "0<m<1"), "names" if not isinstance(ann, int) else f"count={ann}"]
+    if case.get("reuse") is not None:
+        classes.append("tool-reused")
     return {"nontrivial": m > 0 and nflags >= 1 and len(ref_units) >= 2, "classes": classes}
 
 
@@ -95,6 +103,13 @@ def check_single(case):
             raise Violation("from-reference:not-a-copy", f"{a!r}: {before[a]} vs {ref_units}")
     which = case["which"]
     np.random.seed(case["seed"])
+    pre = case.get("pre")
+    if pre and pre != which and m > 0:
+        # the perturbation under test is applied to a corpus that another perturbation has already changed
+        # (its size may then differ from the reference's): confinement is relative to the corpus as it was
+        fn0 = {"false_neg": cst.false_neg_shuffle, "false_pos": cst.false_pos_shuffle, "split": cst.splits_shuffle, "shift": cst.shift_shuffle}[pre]
+        lib_call(pre + "[earlier perturbation]", fn0, corpus)
+        before = snap(corpus)
     fn = {"shift": cst.shift_shuffle, "false_neg": cst.false_neg_shuffle, "false_pos": cst.false_pos_shuffle,
           "category": cst.category_shuffle, "split": cst.splits_shuffle}[which]
     if which == "category":
@@ -103,8 +118,9 @@ def check_single(case):
         lib_call(which, fn, corpus)
     validity(corpus, names, allowed, which)
     after = snap(corpus)
-    classes = [which, "m=0" if m == 0 else ("m=1" if m == 1 else "0<m<1")]
-    distinct_segments = len({(u[0], u[1]) for u in ref_units}) == len(ref_units)
+    classes = [which, "m=0" if m == 0 else ("m=1" if m == 1 else "0<m<1")] + ([f"after-{pre}"] if pre and pre != which and m > 0 else [])
+    distinct_segments = len({(u[0], u[1]) for u in ref_units}) == len(ref_units) and not (pre and pre != which and m > 0)
+    exact_counts = len({(u[0], u[1]) for u in ref_units}) == len(ref_units)
     for a in names:
         b, x = before[a], after[a]
         if m == 0 and b != x:
@@ -117,12 +133,15 @@ def check_single(case):
         elif which == "split":
             nsplit = int(m * 2.5 * len(ref_units))
             db, dx = sum(u[1] - u[0] for u in b), sum(u[1] - u[0] for u in x)
-            if len({(u[0], u[1], u[2]) for u in x}) == len(b) + nsplit:
-                if abs(db - dx) > 1e-9 * max(1.0, db):
+            sub_precision = min(u[1] - u[0] for u in x) < 1e-4    # repeated splitting reached pyannote's 1e-6 precision: a split may be impossible
+            if len({(u[0], u[1], u[2]) for u in x}) == len(b) + nsplit or sub_precision:
+                if abs(db - dx) > 1e-9 * max(1.0, db) and (exact_counts or sub_precision):
                     raise Violation("split:total-duration-changed", f"{a!r}: {db} -> {dx}")
-            if len(x) != len(b) + nsplit:
+            if sub_precision:
+                classes.append("split-reached-segment-precision")
+            elif len(x) != len(b) + nsplit:
                 # a piece may coincide with an existing unit only when the reference has duplicated segments
-                if distinct_segments:
+                if exact_counts:
                     raise Violation("split:wrong-number-of-units", f"{a!r}: {len(b)} + {nsplit} announced splits -> {len(x)} units")
                 classes.append("split-coincidence")
             if {u[2] for u in x} - {u[2] for u in b}:
@@ -172,6 +191,7 @@ def base_cases(draw):
 def corpus_cases(draw):
     cs = draw(base_cases())
     cs["flags"] = draw(st.integers(0, 63))
+    cs["reuse"] = draw(st.sampled_from([None, None, 0.0, 0.5, 1.0]))
     return cs
 
 
@@ -180,6 +200,7 @@ def single_cases(draw):
     cs = draw(base_cases())
     cs["which"] = draw(st.sampled_from(["shift", "false_neg", "false_pos", "category", "split"]))
     cs["prevalence"] = draw(st.booleans())
+    cs["pre"] = draw(st.sampled_from([None, None, "false_neg", "false_pos", "split", "shift"]))
     return cs
 
 
